@@ -315,6 +315,115 @@ func c03RawInit(version string) vs.Verdict {
 	return f.verdict(variant + ": " + strings.Join(evs, ","))
 }
 
+// c03RawBatch: a raw peer on protocol 2025-03-26 sends one JSON-RPC batch of three messages over the
+// in-memory pipe (every sequence over {progress notification, tool call, ping}); the members are
+// dispatched in the order they appear in the batch, with the same handler-ordering rule as for
+// messages sent one by one.
+func c03RawBatch() vs.Verdict {
+	f := &e1Fail{prefix: "c03 raw-batch"}
+	ctx := context.Background()
+	var seqs []string
+	for _, s := range c03Sequences("NTP") {
+		if len(s) == 3 {
+			seqs = append(seqs, s)
+		}
+	}
+	seq := seqs[vs.Choose("batch", len(seqs), 0)]
+	ctl := vs.NewController()
+	gates := make([]*vs.Gate, len(seq))
+	for i := range gates {
+		gates[i] = ctl.Gate(fmt.Sprint(i))
+	}
+	handle := func(k int) {
+		if k < 0 || k >= len(gates) {
+			return
+		}
+		vs.Event("start %d", k)
+		gates[k].Wait()
+		vs.Event("finish %d", k)
+	}
+	vs.Quiet(true)
+	s := NewServer(&Implementation{Name: "srv", Version: "1"}, &ServerOptions{Logger: quietLogger,
+		ProgressNotificationHandler: func(ctx context.Context, r *ProgressNotificationServerRequest) {
+			if v, ok := r.Params.ProgressToken.(float64); ok {
+				handle(int(v))
+			}
+		}})
+	AddTool(s, &Tool{Name: "t"}, func(ctx context.Context, r *CallToolRequest, in c03Args) (*CallToolResult, any, error) {
+		handle(in.K)
+		return &CallToolResult{}, nil, nil
+	})
+	ct, st := NewInMemoryTransports()
+	ss, err := s.Connect(ctx, st, nil)
+	if err != nil {
+		ctl.Stop()
+		return vs.Verdict{Bad: "connect failed: " + err.Error(), Sig: "c03 connect-failed"}
+	}
+	peer := ct.rwc
+	drained := make(chan struct{})
+	vs.Go(func() {
+		io.Copy(io.Discard, peer)
+		close(drained)
+	})
+	send := func(line string) { io.WriteString(peer, line+"\n") }
+	send(`{"jsonrpc":"2.0","id":"i","method":"initialize","params":{"protocolVersion":"2025-03-26","capabilities":{},"clientInfo":{"name":"peer","version":"1"}}}`)
+	send(`{"jsonrpc":"2.0","method":"notifications/initialized","params":{}}`)
+	vs.WaitIdle()
+	vs.Quiet(false)
+	var members []string
+	for i, op := range seq {
+		switch op {
+		case 'N':
+			members = append(members, fmt.Sprintf(`{"jsonrpc":"2.0","method":"notifications/progress","params":{"progressToken":%d,"progress":1}}`, i))
+		case 'T':
+			members = append(members, fmt.Sprintf(`{"jsonrpc":"2.0","id":%d,"method":"tools/call","params":{"name":"t","arguments":{"k":%d}}}`, 10+i, i))
+		case 'P':
+			members = append(members, fmt.Sprintf(`{"jsonrpc":"2.0","id":%d,"method":"ping"}`, 10+i))
+		}
+	}
+	send("[" + strings.Join(members, ",") + "]")
+	vs.WaitIdle()
+	ctl.Stop()
+	vs.Quiet(true)
+	send(`{"jsonrpc":"2.0","id":"final","method":"ping"}`)
+	vs.WaitIdle()
+	peer.Close()
+	ss.Close()
+	<-drained
+	vs.Quiet(false)
+	evs := vs.Events()
+	for i, op := range seq {
+		if op == 'P' {
+			continue
+		}
+		if evIndex(evs, fmt.Sprintf("start %d", i)) < 0 || evIndex(evs, fmt.Sprintf("finish %d", i)) < 0 {
+			f.failf("handler-not-run", "member %d (%c) of batch %q was never handled: %s", i, op, seq, evJoin(evs))
+		}
+		if op != 'N' {
+			continue
+		}
+		fin := evIndex(evs, fmt.Sprintf("finish %d", i))
+		for j := i + 1; j < len(seq); j++ {
+			if st := evIndex(evs, fmt.Sprintf("start %d", j)); st >= 0 && fin >= 0 && st < fin {
+				f.failf(fmt.Sprintf("later-batch-member-overtakes-notification %c then %c", op, seq[j]), "batch %q: the handler of member %d started before the handler of the notification at position %d finished: %s", seq, j, i, evJoin(evs))
+			}
+		}
+	}
+	// members handled in batch order: the first start events appear in index order for notifications
+	last := -1
+	for i, op := range seq {
+		if op != 'N' {
+			continue
+		}
+		st := evIndex(evs, fmt.Sprintf("start %d", i))
+		if st >= 0 && st < last {
+			f.failf("batch-order-not-preserved", "batch %q: notification %d was dispatched before an earlier one: %s", seq, i, evJoin(evs))
+		}
+		last = max(last, st)
+	}
+	return f.verdict(seq + ": " + strings.Join(evs, ","))
+}
+
 func TestVerifC03(t *testing.T) {
 	env := verifx.LoadEnv("C03")
 	b := env.Pick(1, 2)
@@ -322,6 +431,7 @@ func TestVerifC03(t *testing.T) {
 		vs.E1(t, "inmem/c2s/2025-06-18", b, vs.Options{}, func() vs.Verdict { return c03Run("c2s", "2025-06-18", 3) }),
 		vs.E1(t, "inmem/s2c/2025-06-18", b, vs.Options{}, func() vs.Verdict { return c03Run("s2c", "2025-06-18", 3) }),
 		vs.E1(t, "inmem/concurrent-calls", b, vs.Options{}, func() vs.Verdict { return c03Concurrent("2025-06-18") }),
+		vs.E1(t, "raw/batch-of-three/2025-03-26", b, vs.Options{}, func() vs.Verdict { return c03RawBatch() }),
 		vs.E1(t, "raw/initialize-context-ends/2025-06-18", env.Pick(2, 3), vs.Options{}, func() vs.Verdict { return c03RawInit("2025-06-18") }),
 	}
 	env.Run(scs)
